@@ -90,7 +90,7 @@ func checkClientKey(prop string, r tdx.ClientExchangeResult) {
 func runC09(t *testing.T, tape *simrt.Tape, env dst.Env) *simrt.Outcome {
 	return simrt.Run(t, tape, simrt.Options{Policy: -1}, func(s *simrt.Sim) {
 		viol := func(rule, sig, format string, args ...any) { simrt.Violate("C09", rule, sig, format, args...) }
-		clk := &simClock{off: time.Duration(tape.Choose(simrt.Clock, 1000)) * time.Hour}
+		clk := &simClock{off: time.Duration(tape.Choose(simrt.Clock, 1000)-200) * time.Hour}
 		dc := simrt.Pick(tape, simrt.Cfg, 1, 2, 3, 4, 5, 0, -1, -3, 10002, 203, 1<<31-1, -1<<31)
 		temp := tape.Coin(simrt.Cfg, 1, 2)
 		expires := simrt.Pick(tape, simrt.Cfg, 60, 86400, 1, 0)
@@ -238,6 +238,7 @@ func deviation(tape *simrt.Tape) (k knobs, mustFail bool) {
 		k.inSrvNonce = true
 	case 11:
 		k.prime = simrt.Pick(tape, simrt.Fault, "safe2047", "safe1024", "prime2048", "composite", "even")
+		k.g = 4 // acceptable for every prime, so that the modulus itself decides
 	case 12:
 		k.g = simrt.Pick(tape, simrt.Fault, 0, 1, 2, 5, 6, 8, 9, -1, 1<<30)
 		if k.g == 0 {
@@ -293,6 +294,10 @@ func runC10(t *testing.T, tape *simrt.Tape, env dst.Env) *simrt.Outcome {
 			if mustFail {
 				simrt.FaultFired("deviation", "%s", what)
 			}
+			// a reconnecting client meets the same peer again: every attempt
+			// stands on its own
+			attempts := 1 + tape.Choose(simrt.Cfg, 3)/2
+			for a := 0; a < attempts; a++ {
 			ce, se := newPipe()
 			sc := newScript(tape, se, clk, simrand.New(tape), priv, k)
 			simrt.Go("scripted-peer", func() { sc.run(nil) })
@@ -309,6 +314,7 @@ func runC10(t *testing.T, tape *simrt.Tape, env dst.Env) *simrt.Outcome {
 				if c.res.AuthKey.Value != sc.key || c.res.ServerSalt != sc.salt {
 					viol("C10.key-mismatch", "key-mismatch "+what, "client and scripted peer (%s) derived different keys or salts", orHonest(what))
 				}
+			}
 			}
 		default:
 			// man in the middle between the real client and the real in-tree server
@@ -443,7 +449,9 @@ func runC12(t *testing.T, tape *simrt.Tape, env dst.Env) *simrt.Outcome {
 	level := tape.Choose(simrt.Cfg, 4) // 0 bare exchange, 1 connect, 2 connect with PFS, 3 key regeneration
 	return simrt.Run(t, tape, simrt.Options{Policy: -1}, func(s *simrt.Sim) {
 		viol := func(rule, sig, format string, args ...any) { simrt.Violate("C12", rule, sig, format, args...) }
-		clk := &simClock{}
+		// the exchange clock may be a calibrated one (clock/ntp): ahead of or
+		// behind the time the timeouts run on
+		clk := &simClock{off: simrt.Pick(tape, simrt.Clock, 0, 0, 2*time.Hour, -2*time.Hour, 40*time.Second)}
 		timeout := time.Duration(1+tape.Choose(simrt.Cfg, 5)) * 2 * time.Second
 		silentAt := 1 + tape.Choose(simrt.Fault, 3)
 		// the caller's own deadline: none, or one far behind the exchange timeout
